@@ -407,6 +407,45 @@ impl Sim {
             return 0;
         }
         let view_before = self.view(r, Some(t));
+        // A command that carries the id of a known command but differs from it (a transport
+        // mutation that swapped ids, parents or priorities between commands) is a forgery. The
+        // policy of this engine authenticates nothing (that is C35, engine authsim), so no property
+        // claimed here defines what happens to it, and the model - which knows commands by id -
+        // cannot follow it. The batch is still driven (a panic is still caught), the transaction
+        // is then retired and never committed, so model and replica stay in step.
+        let forged = cmds.iter().any(|c| {
+            !view_before.contains(&c.id)
+                && self.g.nodes.get(&c.id).is_some_and(|n| {
+                    let k = &n.cmd;
+                    k.parent != c.parent || k.priority != c.priority || k.bytes != c.bytes || k.policy != c.policy
+                })
+        });
+        if forged {
+            let mut sink = RecSink::default();
+            aranya_runtime::verif::set_fuel(self.cfg.fuel);
+            let res = with_rep!(&mut self.reps[r], rep => rep.add(t, cmds, &mut sink));
+            aranya_runtime::verif::set_fuel(u64::MAX);
+            self.log.borrow_mut().evals.clear();
+            self.stats.bump("forged_id_batches");
+            match res {
+                Guarded::Done(x) => self.note(&format!("add r{r} t{t} (forged id) -> {}", match &x { Ok(n) => format!("ok{n}"), Err(e) => classify(e) })),
+                Guarded::Panicked(m) => {
+                    if self.fs_hard(r) || m.starts_with(crate::simfs::CRASH_PANIC) {
+                        self.on_panic(None, &format!("{ctx}: add_commands with a forged id"), m);
+                        return 0;
+                    }
+                    self.anomaly(format!("{ctx}: add_commands on a batch with a forged id panicked: {m}"));
+                }
+            }
+            if !self.has_graph(r) {
+                // The graph may or may not have been created from this batch; the run cannot go on.
+                if with_rep!(&mut self.reps[r], rep => rep.heads(gid)).is_ok() {
+                    self.dead = true;
+                }
+            }
+            self.mark_dead_trx(r, t);
+            return 0;
+        }
         let pred = self.predict_add(r, t, gid, cmds);
         let had_graph = self.has_graph(r);
         let counter = with_rep!(&self.reps[r], rep => rep.counter);
